@@ -56,17 +56,53 @@ def make_process(kind, rng):
     return MarkovChainProcess(model, SamplingMethod.INVERSION, grid)
 
 
-def run_standard(ctx, kind, mode, n, seed, nproc, tag):
+class HandedOutUniforms:
+    """records every value the library's own uniform variate class hands out while a run is traced: a buffered, cached or
+    copied variate shows up as the same 53-bit value handed out twice (a fresh draw repeats one with probability ~ n^2 / 2^53)"""
+
+    def __enter__(self):
+        from rpylib.distribution.univariate.uniform import Uniform
+        self.cls, self.orig, self.values = Uniform, Uniform.sample, []
+        rec = self.values
+        orig = self.orig
+
+        def sample(self_, size=1):
+            out = orig(self_, size)
+            rec.extend(float(x) for x in np.asarray(out, dtype=float).ravel())
+            return out
+        Uniform.sample = sample
+        return self
+
+    def __exit__(self, *a):
+        self.cls.sample = self.orig
+
+    def duplicate(self):
+        seen = {}
+        for i, v in enumerate(self.values):
+            if v in seen:
+                return {"value": v, "first_hand_out": seen[v], "second_hand_out": i, "handed_out": len(self.values)}
+            seen[v] = i
+        return None
+
+
+def run_standard(ctx, kind, mode, n, seed, nproc, tag, reuse=None):
     from rpylib.montecarlo.configuration import ConfigurationStandard
     from rpylib.montecarlo.standard.engine import Engine
     d = ctx.work / f"trace_{tag}"
-    process = make_process(kind, ctx.rng)
-    cfg = ConfigurationStandard(mc_paths=n, seed=seed, nb_of_processes=nproc)
+    if reuse is None:
+        process = make_process(kind, ctx.rng)
+        cfg = ConfigurationStandard(mc_paths=n, seed=seed, nb_of_processes=nproc)
+        engine = Engine(configuration=cfg, process=process)
+    else:
+        engine = reuse                      # the SAME engine / process / sampler objects priced again
     with warnings.catch_warnings():
         warnings.simplefilter("ignore")
-        with rngtrace.tracing(d):
-            stats = Engine(configuration=cfg, process=process).price(make_product(mode))
-    return np.array(stats._payoff_statistics.stats, dtype=float).copy(), rngtrace.analyse(rngtrace.read(d), os.getpid())
+        with rngtrace.tracing(d), HandedOutUniforms() as hu:
+            stats = engine.price(make_product(mode))
+    an = rngtrace.analyse(rngtrace.read(d), os.getpid())
+    an["uniform_duplicate"] = hu.duplicate() if nproc == 1 else None
+    an["engine"] = engine
+    return np.array(stats._payoff_statistics.stats, dtype=float).copy(), an
 
 
 def run_mlmc(ctx, hist, L0, N0, level_max, mode, seed, tag):
@@ -79,10 +115,12 @@ def run_mlmc(ctx, hist, L0, N0, level_max, mode, seed, tag):
     with warnings.catch_warnings():
         warnings.simplefilter("ignore")
         with np.errstate(all="ignore"):
-            with rngtrace.tracing(d):
+            with rngtrace.tracing(d), HandedOutUniforms() as hu:
                 r = fe.run_mlmc(hist, L0, N0, level_max, seed=seed, coupling=coupling, product=make_product(mode))
     rows = [a.copy() for a in (r["final"] or r["reads"][-1])["rows"]] if (r["final"] or r["reads"]) else []
-    return rows, rngtrace.analyse(rngtrace.read(d), os.getpid())
+    an = rngtrace.analyse(rngtrace.read(d), os.getpid())
+    an["uniform_duplicate"] = hu.duplicate()
+    return rows, an
 
 
 def oracle(ctx, desc, an, seed, nproc, cls):
@@ -100,6 +138,11 @@ def oracle(ctx, desc, an, seed, nproc, cls):
                           "sample_a": seen[key], "sample_b": i, "pids": sorted({p["pid"] for p in an["paths"]})}, cls=cls)
                 return False
             seen[key] = i
+    if an.get("uniform_duplicate"):
+        ctx.fail("oracle", "c08.shared_variate", desc,
+                 dict(an["uniform_duplicate"], what="the library's uniform variate class handed out the same value twice in one run "
+                                                    "(a buffered, cached or copied variate is consumed more than once)"), cls=cls)
+        return False
     if nproc == 1:
         for pid, lib, s, before in an["seeds"]:
             if before > 0:
@@ -155,6 +198,16 @@ def standard_case(ctx, kind, mode, n, seed, nproc):
             if rows.tobytes() != rows2.tobytes():
                 ctx.fail("oracle", "c08.seeded_repeat", desc, {"what": "two single-process runs with the same seed differ",
                                                                "first": rows.ravel()[:4].tolist(), "second": rows2.ravel()[:4].tolist()}, cls=cls)
+                return
+            # the same engine, process and sampler objects priced a second time with the same seed
+            np.random.normal(size=ctx.rng.randint(1, 40))
+            rows3, an3 = run_standard(ctx, kind, mode, n, seed, nproc, "c", reuse=an["engine"])
+            ctx.branches["c08.run:same_objects_again"] += 1
+            if rows.tobytes() != rows3.tobytes():
+                ctx.fail("oracle", "c08.seeded_repeat", desc, {"what": "a second seeded run on the same engine and process objects differs from the first",
+                                                               "first": rows.ravel()[:4].tolist(), "second": rows3.ravel()[:4].tolist()}, cls=cls)
+                return
+            oracle(ctx, desc, an3, seed, nproc, cls)
 
 
 def mlmc_case(ctx, hist, L0, N0, level_max, mode, seed):
